@@ -276,3 +276,39 @@ Qed.
 Lemma splice_witness_in_known :
   nonutf8_argv_with_config [Some (w "comrak"); None; Some (w "b.md")] true = true.
 Proof. reflexivity. Qed.
+
+(* the two general statements that are false of the code (pinned in Props/C16.v) *)
+Lemma splice_full_refuted :
+  ~ (forall (real : list (option word)) (config : list word),
+       exists out, splice real config = Ok out /\ List.length out = List.length real + List.length config).
+Proof.
+  intro H. destruct (H [Some (w "comrak"); None; Some (w "b.md")] []) as [out [E _]].
+  destruct splice_nonutf8_panics as [site P]. rewrite P in E. discriminate E.
+Qed.
+
+Lemma merge_full_refuted :
+  ~ (forall real config, clap_accepts real = true -> clap_accepts config = true ->
+       clap_accepts (documented_effective_flags real config) = true).
+Proof. intro H. specialize (H ["gfm"] ["gfm"] eq_refl eq_refl). discriminate H. Qed.
+
+Lemma inplace_forces : forall c, c_inplace c = true ->
+  formatter_of c = R_commonmark /\ installs_highlighter c = false.
+Proof. intros c H. split; [apply inplace_commonmark | apply inplace_no_highlighter]; exact H. Qed.
+
+Lemma plan_documented : forall c,
+  formatter_of c = documented_renderer c /\ sink_of c = documented_sink c /\
+  highlighter_of c = documented_highlighter c /\ (installs_highlighter c = true <-> formatter_of c = R_html).
+Proof. intro c. repeat split; try apply renderer_documented; try apply sink_documented; try apply highlighter_documented; apply highlighter_html_only. Qed.
+
+Lemma value_names_documented :
+  map extension_name all_extensions = documented_extension_names /\
+  map format_name all_formats = documented_format_names /\
+  map list_style_name all_list_styles = documented_list_style_names /\
+  (forall e, In e all_extensions).
+Proof. exact (conj extension_names_documented (conj format_names_documented (conj list_style_names_documented all_extensions_complete))). Qed.
+
+Lemma config_untouched : forall real cf src,
+  cli_with_config_model real config_none_word src = Ok (Parse_once real) /\
+  cli_with_config_model real cf Cfg_unreadable = Ok (Parse_once real) /\
+  (bytes_eqb cf config_none_word = false -> cli_with_config_model real cf Cfg_bad_quotes = Ok (Exit_with 2%Z)).
+Proof. intros real cf src. exact (conj (config_model_none real src) (conj (config_model_unreadable real cf) (config_model_bad_quotes real cf))). Qed.
